@@ -167,8 +167,10 @@ impl Sys {
         }
     }
 
-    fn sign_cp(&mut self, i: usize, c: &Content) -> bool {
-        let n = self.estate(i).next_counterparty_commit_num;
+    /// `off`: 0 = the next number; -1 = a retry of the current one; -2 = a stale number
+    /// (a replayed request); +1 = a number from the future
+    fn sign_cp(&mut self, i: usize, c: &Content, off: i64) -> bool {
+        let n = (self.estate(i).next_counterparty_commit_num as i64 + off).max(0) as u64;
         let pt = PublicKey::from_secret_key(&self.secp, &SecretKey::from_slice(&cp_secret(n)).unwrap());
         let (to_h, to_c) = c.balances();
         // their commitment: they offer what comes in to us, they receive what we send
@@ -177,14 +179,14 @@ impl Sys {
         let r = self.node.with_channel(&self.chans[i].id, |ch| {
             ch.sign_counterparty_commitment_tx_phase2(&pt, n, 1100, to_h, to_c, offered.clone(), received.clone())
         });
-        if r.is_ok() {
+        if r.is_ok() && off == 0 {
             self.chans[i].ccur = c.clone();
         }
         r.is_ok()
     }
 
-    fn validate_holder(&mut self, i: usize, c: &Content) -> bool {
-        let n = self.estate(i).next_holder_commit_num;
+    fn validate_holder(&mut self, i: usize, c: &Content, off: i64) -> bool {
+        let n = (self.estate(i).next_holder_commit_num as i64 + off).max(0) as u64;
         let (to_h, to_c) = c.balances();
         let offered = Content::htlcs(&c.out, OUT_CLTV);
         let received = Content::htlcs(&c.inn, IN_CLTV);
@@ -194,7 +196,7 @@ impl Sys {
         let r = self.node.with_channel(&self.chans[i].id, |ch| {
             ch.validate_holder_commitment_tx_phase2(n, 1100, to_h, to_c, offered.clone(), received.clone(), &sig, &hs)
         });
-        if r.is_ok() {
+        if r.is_ok() && off == 0 {
             self.chans[i].hnxt = Some(c.clone());
         }
         r.is_ok()
@@ -293,6 +295,11 @@ enum Op {
     SignCp(usize, Content),
     Validate(usize, Content),
     Revoke(usize),
+    /// a request whose number is not the next one and whose content differs from what the
+    /// channel holds for that number: refused by the commitment-number rules, whatever the
+    /// payments look like
+    SignCpOff(usize, Content, i64),
+    ValidateOff(usize, Content, i64),
     Restart,
 }
 
@@ -326,7 +333,30 @@ fn run_case(case: usize, nch: usize, script: Option<Vec<Op>>, rng: &mut Rng, len
                         let base = sys.chans[i].hnxt.clone().unwrap_or(sys.chans[i].hcur.clone());
                         Op::Validate(i, mutate(rng, &base, &invoices, fee_msat / 1000))
                     }
-                    14..=17 => Op::Revoke(i),
+                    14..=16 => Op::Revoke(i),
+                    17 => {
+                        // replayed / early requests with other HTLC sets (they must change nothing)
+                        let off = *rng.pick(&[-2i64, -2, -3, 2]);
+                        if rng.chance(1, 2) {
+                            let e = sys.estate(i);
+                            let base = if rng.chance(1, 2) { sys.chans[i].hcur.clone() } else { sys.chans[i].ccur.clone() };
+                            let c = mutate(rng, &base, &invoices, fee_msat / 1000);
+                            if (e.next_counterparty_commit_num as i64) + off >= 0 && c.coq() != sys.chans[i].ccur.coq() {
+                                Op::SignCpOff(i, c, off)
+                            } else {
+                                Op::Revoke(i)
+                            }
+                        } else {
+                            let e = sys.estate(i);
+                            let off = -off.abs();
+                            let c = mutate(rng, &sys.chans[i].hcur.clone(), &invoices, fee_msat / 1000);
+                            if (e.next_holder_commit_num as i64) + off >= 0 && c.coq() != sys.chans[i].hcur.coq() {
+                                Op::ValidateOff(i, c, off)
+                            } else {
+                                Op::Revoke(i)
+                            }
+                        }
+                    }
                     18 => {
                         // mirror: bring the other side of the channel to the same content
                         if rng.chance(1, 2) {
@@ -344,7 +374,7 @@ fn run_case(case: usize, nch: usize, script: Option<Vec<Op>>, rng: &mut Rng, len
             sys.make_room_for_cp(*i);
         }
         let before: Vec<(u64, u64)> = HASHES.iter().map(|h| sys.flight(*h)).collect();
-        let before_fp = fingerprint(&sys.node);
+        let before_fp = fingerprint_full(&sys.node);
         let before_store = store_dump(&sys.world.persister);
         let (coq, j, ok, is_update) = {
             let r = catch_unwind(AssertUnwindSafe(|| match &op {
@@ -360,12 +390,20 @@ fn run_case(case: usize, nch: usize, script: Option<Vec<Op>>, rng: &mut Rng, len
                     }
                     (format!("PAddInvoice {} {}", h, a), json!(["add_invoice", h, a]), r, false)
                 }
+                Op::SignCpOff(i, c, off) => {
+                    let r = sys.sign_cp(*i, c, *off);
+                    (format!("PSignCp {} {} false", i, c.coq()), json!(["sign_cp_off", i, c.coq(), off]), r, false)
+                }
+                Op::ValidateOff(i, c, off) => {
+                    let r = sys.validate_holder(*i, c, *off);
+                    (format!("PValidateHolder {} {} false", i, c.coq()), json!(["validate_holder_off", i, c.coq(), off]), r, false)
+                }
                 Op::SignCp(i, c) => {
-                    let r = sys.sign_cp(*i, c);
+                    let r = sys.sign_cp(*i, c, 0);
                     (format!("PSignCp {} {} true", i, c.coq()), json!(["sign_cp", i, c.coq()]), r, true)
                 }
                 Op::Validate(i, c) => {
-                    let r = sys.validate_holder(*i, c);
+                    let r = sys.validate_holder(*i, c, 0);
                     (format!("PValidateHolder {} {} true", i, c.coq()), json!(["validate_holder", i, c.coq()]), r, false)
                 }
                 Op::Revoke(i) => {
@@ -391,7 +429,7 @@ fn run_case(case: usize, nch: usize, script: Option<Vec<Op>>, rng: &mut Rng, len
         }
         // C10 / C11 monitors around every request
         if !ok && !matches!(op, Op::Restart) {
-            let mut d = fingerprint_diff(&before_fp, &fingerprint(&sys.node));
+            let mut d = fingerprint_diff(&before_fp, &fingerprint_full(&sys.node));
             d.extend(store_diff(&before_store, &store_dump(&sys.world.persister)));
             if !d.is_empty() {
                 violations.push(format!("C10: refused {} changed: {}", j, d.join("; ")));
